@@ -150,7 +150,6 @@ type attemptOpts struct {
 	BlockHandler bool // handler blocked at the stop and released afterwards (cancel kinds)
 }
 
-
 // runAttempt performs one scripted attempt on the session. start is the
 // position the attempt is expected to request (used to address packets).
 func runAttempt(c *core.Ctx, s *run.Session, l *hist.Layout, start hist.Pos, spec faultSpec, o attemptOpts, r *core.Rng) *attemptObs {
